@@ -47,6 +47,21 @@ def cross_history_tags(rep, prop, observations):
     return len(by_tag)
 
 
+class StoreCfg:
+    """A store-level (Store API) exploration configuration."""
+
+    def __init__(self, label=None, **kw):
+        from ..core import storesys
+
+        self.kw = kw
+        self.label = label or "store:" + "+".join(kw.get("kinds", storesys.BACKENDS))
+
+    def make(self):
+        from ..core import storesys
+
+        return storesys.StoreSys(label=self.label, **self.kw)
+
+
 def run_configs(prop, tier, configs, depth_of, workers=None, level="model_checking", assumptions=None, rule=None, post=None, min_success=1):
     """Explore every config; collect violations of `prop` only."""
     rep = Reporter(prop, tier)
@@ -59,7 +74,8 @@ def run_configs(prop, tier, configs, depth_of, workers=None, level="model_checki
     fix_all = True
     for cfg in configs:
         depth, max_states = depth_of(cfg)
-        res = explore.explore(lambda cfg=cfg: davsys.DavSys(cfg), max_depth=depth, workers=workers, max_states=max_states)
+        factory = cfg.make if hasattr(cfg, "make") else (lambda cfg=cfg: davsys.DavSys(cfg))
+        res = explore.explore(factory, max_depth=depth, workers=workers, max_states=max_states)
         for e in res.errors:
             rep.harness_error(e[:2000])
         for sig, e in res.violations.items():
